@@ -58,6 +58,12 @@ def run(run):
                         ka = rng.choice([k for k in kinds if k in QG.STRING_ACC] or kinds)
                         al = ENTITY_LIKE[(pi * 3 + i) % len(ENTITY_LIKE)]
                         at = [QG.accessor_atom(rng, al, ka, proj.values) for _ in range(3)]
+                        # … and arithmetic whose operator follows a closing parenthesis and touches its number in the tight
+                        # text: `(3)-1==2`, `2*(4+1)-3>=7`
+                        S, N = QG.sym, QG.num
+                        at[2] = [("atom", (S("("), N(3), S(")"), S("-"), N(1), S("=="), N(2))),
+                                 ("atom", (N(2), S("*"), S("("), N(4), S("+"), N(1), S(")"), S("-"), N(3), S(">="), N(7))),
+                                 ("atom", (S("("), N(9), S(")"), S("-"), N(4), S("!="), S("("), N(2), S(")"), S("+"), N(3)))][i]
                         q = c01.make_query([(ka, al)], QG.mk("and", at[0], QG.mk("or", at[1], at[2])), al)
                     base_text = QG.plain(q)
                     base = E.engine_case(proj, d, base_text, q)
